@@ -169,15 +169,9 @@ func c20Facts(fc *facts) {
 						ok = false // method value / passed as a callback
 						return true
 					}
-					for i, anc := range stack[:len(stack)-2] {
-						switch a := anc.(type) {
-						case *ast.FuncLit:
-							ok = false
-						case *ast.GoStmt:
-							if a.Call == call || i >= 0 {
-								ok = false
-							}
-						case *ast.DeferStmt:
+					for _, anc := range stack[:len(stack)-2] {
+						switch anc.(type) {
+						case *ast.FuncLit, *ast.GoStmt, *ast.DeferStmt:
 							ok = false
 						}
 					}
